@@ -8,8 +8,22 @@
     Leaves are DIMACS literals ([eval s (FVar z) = lit_true s z]).  The calling
     convention of the converters ([next_variable] is a positive variable above
     every variable of the formula) appears as the hypotheses [1 <= nv] and
-    [Z.abs z < nv] for every leaf [z]; the harness also probes outside it. *)
-From Coq Require Import ZArith List Bool.
+    [Z.abs z < nv] for every leaf [z]; the harness also probes outside it.
+
+    History.  Earlier versions of this file contained [C11_naive_total_refuted]
+    and [C11_switching_total_refuted]: [to_cnf_naive] / [to_cnf_switching]
+    raised TypeError on a negated compound formula ([Not(If(1, 2))],
+    [Not(Or([1, And([2, 3])]))]: [__order_clauses] returned the compound formula
+    under a [Not] as the sort key and [list.sort] compared it with an int) and
+    [to_cnf_switching(Or([]), nv)] raised IndexError ([clauses[0]] of an empty
+    list).  The witnesses were replayed on the real code and the code was
+    repaired: commit 94d9e8e ([__order_clauses]: key [0] for a [Not] over a
+    compound formula) and commit 9837dd8 ([__distribute_ors_switching]: an
+    empty disjunction is returned unchanged).  The models follow both repairs
+    and the refutations are replaced by the totality theorems
+    [C11_naive_total] and [C11_switching_total]: no precondition is left, the
+    conversions return on every formula and every counter. *)
+From Coq Require Import ZArith List Bool Permutation.
 From SP Require Import Base.Sat Logic.Formula Logic.Tseitin Logic.Naive Logic.Switching.
 From SP Require Import Logic.TseitinProofs Logic.NaiveProofs Logic.SwitchingProofs.
 Import ListNotations.
@@ -67,15 +81,10 @@ Example C11_tseitin_example :
       [4; 7; 8]; [-4; -7; 8]; [4; -7; -8]; [-4; 7; -8]; [8]], 9).
 Proof. exact ex_tseitin. Qed.
 
-(** ** Naive conversion.  Full statement (false of the model, because false of
-    the code: see [C11_naive_total_refuted]):
-
-      forall f nv, exists g, to_cnf_naive f nv = Ok (g, nv) /\
-        (forall s, neval s g = eval s f) /\ incl (nleaves g) (leaves f) /\ is_cnf g = true.
-
-    What holds: whenever the conversion returns, the result is equivalent to
-    the input under every assignment, mentions only leaves of the input, leaves
-    the fresh counter unchanged and is an [And] of literals / [Or]s of literals. *)
+(** ** Naive conversion.  Whenever the conversion returns, the result is
+    equivalent to the input under every assignment, mentions only leaves of
+    the input, leaves the fresh counter unchanged and is an [And] of literals /
+    [Or]s of literals. *)
 Theorem C11_naive : forall f nv g nv',
   to_cnf_naive f nv = Ok (g, nv') ->
   nv' = nv /\
@@ -85,13 +94,32 @@ Theorem C11_naive : forall f nv g nv',
 Proof. exact naive_correct. Qed.
 Print Assumptions C11_naive.
 
-(** [__apply_demorgan] sorts [map Not input_list] by [__order_clauses] before
-    pushing the negations down; the key of [Not(c)] is [c] itself when [c] is
-    compound, and Python cannot order a namedtuple against an int:
-    [to_cnf_naive(Not(If(1, 2)), 3)] raises TypeError. *)
-Theorem C11_naive_total_refuted : exists f nv, to_cnf_naive f nv = Err ETypeError.
-Proof. exact naive_not_total. Qed.
-Print Assumptions C11_naive_total_refuted.
+(** Totality (full statement): on every formula over If/Iff/And/Or/Not and
+    integer leaves and for every counter the conversion returns, and the result
+    is a CNF equivalent to the input.  No guard is needed: every sort key of
+    [__order_clauses] is an int (so the comparisons of [list.sort] cannot
+    raise), the binary insertion stays inside the sorted prefix, and the fuel
+    of the model's [demorgan] covers the recursion of [__apply_demorgan]. *)
+Theorem C11_naive_total : forall f nv,
+  exists g, to_cnf_naive f nv = Ok (g, nv) /\
+    (forall s, neval s g = eval s f) /\
+    incl (nleaves g) (leaves f) /\
+    is_cnf g = true.
+Proof. exact naive_total. Qed.
+Print Assumptions C11_naive_total.
+
+(** The sort itself never fails: [list.sort(key=__order_clauses)] returns a
+    permutation of any list of formulas (negated compound members included). *)
+Theorem C11_sort_total : forall l, exists r, pysort l = Ok r /\ Permutation l r.
+Proof. exact pysort_total_perm. Qed.
+Print Assumptions C11_sort_total.
+
+(** The former refutation witnesses now convert. *)
+Example C11_naive_repaired_example :
+  to_cnf_naive (FNot (FIf (FVar 1) (FVar 2))) 3 = Ok (NAnd [NVar 1; NNot (NVar 2)], 3) /\
+  to_cnf_naive (FNot (FOr [FVar 1; FAnd [FVar 2; FVar 3]])) 4 =
+    Ok (NAnd [NOr [NNot (NVar 2); NNot (NVar 3)]; NNot (NVar 1)], 4).
+Proof. exact ex_naive_repaired. Qed.
 
 Example C11_naive_example :
   to_cnf_naive (FIff (FVar 1) (FAnd [FVar 2; FVar (-3)])) 4 =
@@ -99,13 +127,11 @@ Example C11_naive_example :
               NOr [NNot (NVar 1); NVar 2]], 4).
 Proof. exact ex_naive. Qed.
 
-(** ** Switching conversion: partial correctness, relative to the fuel of
-    [dist_sw] (the Python function recurses on formulas it rebuilds) and to the
-    exceptions of the code ([C11_switching_total_refuted]).  Whenever it
-    returns: the result is in CNF shape, its variables are leaves of the input
-    or lie in the reported fresh range [nv, nv'), and an assignment [s]
-    satisfies the input iff it can be changed on [nv, nv') into an assignment
-    satisfying the result (same models projected to the original variables). *)
+(** ** Switching conversion.  Whenever it returns: the result is in CNF shape,
+    its variables are leaves of the input or lie in the reported fresh range
+    [nv, nv'), and an assignment [s] satisfies the input iff it can be changed
+    on [nv, nv') into an assignment satisfying the result (same models
+    projected to the original variables). *)
 Theorem C11_switching : forall f nv g nv',
   1 <= nv -> (forall z, In z (leaves f) -> Z.abs z < nv) ->
   to_cnf_switching f nv = Ok (g, nv') ->
@@ -116,13 +142,33 @@ Theorem C11_switching : forall f nv g nv',
 Proof. exact switching_correct. Qed.
 Print Assumptions C11_switching.
 
-(** TypeError as for the naive conversion ([Not(If(1, 2))]); IndexError on an
-    empty disjunction ([to_cnf_switching(Or([]), 1)]: [clauses[0]] of an empty list). *)
-Theorem C11_switching_total_refuted :
-  (exists f nv, to_cnf_switching f nv = Err ETypeError) /\
-  (exists f nv, to_cnf_switching f nv = Err EIndexError).
-Proof. exact switching_not_total. Qed.
-Print Assumptions C11_switching_total_refuted.
+(** Totality: on every formula and for every counter (inside the calling
+    convention or not) the conversion returns a formula in CNF shape - none of
+    the model's error outcomes (TypeError of the sort, IndexError on an empty
+    clause list, the [assert] on a negated compound formula, fuel) is
+    reachable: [__apply_demorgan] leaves negations on leaves only, and the
+    recursion of [__distribute_ors_switching] on the formulas it rebuilds has
+    depth at most [size + 3] (each step merges the first two clauses of a
+    disjunction; re-distributing an already distributed member costs a
+    constant), which the model's fuel [8 * size + 32] covers.  Under the
+    calling convention the result is equisatisfiable with the input in the
+    strong sense of [C11_switching]. *)
+Theorem C11_switching_total : forall f nv,
+  exists g nv', to_cnf_switching f nv = Ok (g, nv') /\
+    is_cnf g = true /\
+    (1 <= nv -> (forall z, In z (leaves f) -> Z.abs z < nv) ->
+     nv <= nv' /\
+     (forall z, In z (nleaves g) -> In z (leaves f) \/ nv <= z < nv') /\
+     (forall s, (exists t, (forall v, ~ (nv <= v < nv') -> t v = s v) /\ neval t g = true) <-> eval s f = true)).
+Proof. exact switching_total. Qed.
+Print Assumptions C11_switching_total.
+
+(** The former refutation witnesses now convert (an empty disjunction is
+    false: the CNF consisting of the empty clause). *)
+Example C11_switching_repaired_example :
+  to_cnf_switching (FNot (FIf (FVar 1) (FVar 2))) 3 = Ok (NAnd [NVar 1; NNot (NVar 2)], 3) /\
+  to_cnf_switching (FOr []) 1 = Ok (NAnd [NOr []], 1).
+Proof. exact ex_switching_repaired. Qed.
 
 Example C11_switching_example :
   (forall z, In z (leaves (FOr [FAnd [FVar 1; FVar 2]; FAnd [FVar 3; FVar (-4)]; FIf (FVar 1) (FVar 3)])) -> Z.abs z < 5) /\
